@@ -215,7 +215,7 @@ def main(prop, tier):
             'distinct_interleavings': len(interleavings),
             'distinct_task_to_worker_assignments': len(assignments),
             'strict_runs': tally.c['mode_strict'], 'extended_runs': tally.c['mode_extended'],
-            'programs': tally.sub('program_'),
+            'program_mix': tally.sub('program_'),
             'fault_fired': tally.sub('fault_'),
             'probes': tally.sub('probe_'),
             'explained_loss': tally.sub('explained_loss_'),
